@@ -249,7 +249,16 @@ theorem collect1Core_ty' (src : Dataset) (hsrc : src.TY) (out out' : List Var) (
           split at h
           · rename_i b
             split at h
-            · simp only [Except.ok.injEq] at h; subst h; exact hout
+            · split at h
+              · simp only [Except.ok.injEq] at h; subst h; exact hout
+              · rename_i m0 rest
+                simp only [Except.ok.injEq] at h; subst h
+                refine map_replace_all out _ _ hout (show (Var.grid _ _ _).TY' src from ⟨hg.2 m0 (by simp), ?_⟩)
+                intro x hx
+                simp only [List.mem_append, List.mem_singleton] at hx
+                rcases hx with hx | rfl
+                · exact hg.2 x (by simp [hx])
+                · exact hbty
             · simp only [Except.ok.injEq] at h; subst h
               exact map_replace_all out _ _ hout (show (Var.grid _ _ _).TY' src from ⟨hg.1, setBase_ty hg.2 hbty⟩)
           · simp at h
